@@ -177,11 +177,18 @@ fn resolve_renamed(
 ) -> Option<String> {
     let name_map = serde_renamed.get(id)?;
 
-    // Find in imports.
+    // Find in imports. `import_types` is a hash set: with several imports of that name take the
+    // alphabetically first crate so that the choice does not depend on hash or insertion order.
     import_types
         .iter()
         .filter(|i| i.type_name == id)
-        .find_map(|import_ref| name_map.get(&import_ref.base_crate))
+        .filter_map(|import_ref| {
+            name_map
+                .get(&import_ref.base_crate)
+                .map(|renamed| (&import_ref.base_crate, renamed))
+        })
+        .min_by(|a, b| a.0.cmp(b.0))
+        .map(|(_, renamed)| renamed)
         // Fallback to looking up in our current namespace.
         .or_else(|| name_map.get(crate_name))
         .map(ToOwned::to_owned)
